@@ -92,12 +92,7 @@ func c22BucketCounts(sm *sMetric, lv *sLV) map[string]uint64 {
 		out[name(b)] = 0
 	}
 	for _, o := range lv.Obs {
-		for _, b := range bounds {
-			if float64(o) <= b {
-				out[name(b)]++
-				break
-			}
-		}
+		out[name(sm.bucketOf(float64(o)))]++
 	}
 	return out
 }
